@@ -113,13 +113,14 @@ impl<'a> Lexer<'a> {
     }
 
     fn number(&mut self, start: usize, c: char) -> TokenKind {
+        // a sign that is not followed by a digit (or ends the input) is a token of its own
         match self.s.peek() {
-            Some(c2) if !c2.is_ascii_digit() => match c {
+            Some(c2) if c2.is_ascii_digit() => {}
+            _ => match c {
                 '+' => return TokenKind::Plus,
                 '-' => return TokenKind::Minus,
                 _ => {}
             },
-            _ => {}
         }
 
         let mut base = 10;
